@@ -83,6 +83,7 @@ def _run_units(cfg, scratch, support_dir, tier, seed):
             if n not in order: order.append(n)
         if u not in order: order.append(u)
     for u in order:
+        R.snapshot(scratch)          # every unit is spliced from a pristine copy of the current tree
         ur = R.run_unit(u, scratch, support_dir, tier, seed)
         # resource-outs are never a verdict: retry with doubled rlimit and other seeds
         att = R.attribute(ur)
@@ -118,6 +119,8 @@ def _check(prop, cfg, tier, seed, scratch, t0):
     violations = []; known_hit = []; undecided = []; other_prop_failures = []
     fun_rows = []; clauses_all = []; n_obl = 0; n_dis = 0
     samples = []
+    seen_fn_keys = set()
+    used_anon = set()
     for uname, ur in results.items():
         if ur.fatal:
             undecided.append('unit %s: %s' % (uname, ur.fatal.split('\n')[0]))
@@ -148,17 +151,49 @@ def _check(prop, cfg, tier, seed, scratch, t0):
         for f in ur.report['functions']:
             if prop not in (f.get('props') or []) and prop not in (f.get('implicit') or []):
                 continue
-            jn = R.fn_json_name(crate, f['file'], f['key'])
+            if f.get('assumed_here'):
+                continue      # contract assumed in this unit (external_body); its body is verified in another unit of the same property
+            if f['key'] in seen_fn_keys:
+                continue      # already counted from an earlier unit
+            if f.get('kind') == 'lemma':
+                jn = R.fn_json_name(crate, f['file'], f['verus_name'])
+            else:
+                jn = R.fn_json_name(crate, f['file'], f['key'])
+            if f.get('kind') == 'trait-contract':
+                seen_fn_keys.add(f['key'])
+                for c in f['clauses']:
+                    if prop == c.split('|')[0].split('.')[0] or prop in c.split('|')[1:]:
+                        n_obl += 1
+                        if not (c in failed_obs or c.split('|')[0] in failed_obs):
+                            n_dis += 1; clauses_all.append(c.split('|')[0])
+                continue
             fr = ur.functions.get(jn)
+            if f.get('kind') == 'lemma':
+                # a lemma directive may hold several proof fns: all of them must have been checked
+                mod = jn.rsplit('::', 1)[0]
+                parts = [ur.functions.get('%s::%s' % (mod, n)) for n in f.get('proof_fns', [])]
+                if parts and all(p is not None for p in parts):
+                    fr = {'success': all(p['success'] for p in parts), 'time_us': sum(p['time_us'] for p in parts), 'rlimit': sum(p['rlimit'] for p in parts), 'queries': sum(p['queries'] for p in parts)}
+                    jn = mod + '::{' + ','.join(f.get('proof_fns', [])) + '}'
             if fr is None:
-                # match by suffix
-                cands = [k for k in ur.functions if k.endswith('::' + f['key'].split('::')[-1]) and f['key'].split('::')[0].strip('<>&') .split(' ')[0] in k]
-                if len(cands) == 1: fr = ur.functions[cands[0]]; jn = cands[0]
+                meth = f['key'].split('::')[-1]
+                tyname = f['key'].split('::')[0].strip('<>&').split(' ')[0]
+                cands = [k for k in ur.functions if k.endswith('::' + meth) and k.split('::')[-2] == tyname]
+                if len(cands) == 1:
+                    fr = ur.functions[cands[0]]; jn = cands[0]
+                elif f['key'].startswith('<'):
+                    # impl on a primitive / reference type: Verus names it impl&%N::m; take the anonymous ones of this module in order
+                    mod = jn.rsplit('::', 2)[0]
+                    anon = sorted([k for k in ur.functions if k.startswith(mod + '::impl&%') and k.endswith('::' + meth)], key=lambda k: int(re.search(r'impl&%(\d+)', k).group(1)))
+                    free = [k for k in anon if k not in used_anon]
+                    if free:
+                        used_anon.add(free[0]); fr = ur.functions[free[0]]; jn = free[0]
             if fr is None:
                 undecided.append('census: lifted fn %s was not checked by Verus' % f['key'])
                 continue
             my_clauses = [c for c in f['clauses'] if prop == c.split('|')[0].split('.')[0] or prop in c.split('|')[1:]]
             impl_mine = prop in (f.get('implicit') if f.get('implicit') is not None else f.get('props') or [])
+            seen_fn_keys.add(f['key'])
             row = {'fn': f['key'], 'file': '%s:%d' % (f['file'], f['line']), 'verus_name': jn, 'rules': f['rules'],
                    'clauses': [c.split('|')[0] for c in my_clauses], 'implicit_obligations': impl_mine,
                    'smt_ms': round(fr['time_us'] / 1000.0, 1), 'rlimit': fr['rlimit'], 'queries': fr['queries']}
